@@ -219,3 +219,41 @@ ASSUMPTIONS = ['compression is a property of the file name in the model (codecs 
 OUTSIDE = ['real codecs', 'repeated re-compression over several saves',
            'lzma/xz as current formats in the watermark runs (quick)']
 STUBS = ['ModelFS seams', 'ManifestFile.load/dump wrappers']
+
+
+def validate(seed, tier):
+    """real filesystem, real codecs: a sub-Manifest is stored compressed iff its real
+    uncompressed size >= watermark for watermarks size-1, size, size+1, starting from plain
+    and from .gz; exactly one file remains; the tree verifies"""
+    import os
+    from vf.realcheck import RealTree, gemato
+    agree, details, errs = 0, [], []
+    for start_gz in (False, True):
+        for delta in (-1, 0, 1):
+            t = RealTree()
+            try:
+                for i in range(6):
+                    t.write(f'sub/f{i}', bytes([65 + i]) * (i + 1))
+                t.write('sub/Manifest', b'')
+                t.write('Manifest', b'MANIFEST sub/Manifest 0\n')
+                rc, out = gemato('update', '-H', 'MD5', t.root)
+                size = len(t.read('sub/Manifest'))
+                if start_gz:
+                    rc, out = gemato('update', '-H', 'MD5', '-f', '-c', '0', t.root)
+                    if not os.path.exists(os.path.join(t.root, 'sub/Manifest.gz')):
+                        errs.append('watermark 0 did not compress')
+                        continue
+                rc, out = gemato('update', '-H', 'MD5', '-f', '-c', str(size + delta), t.root)
+                plain = os.path.exists(os.path.join(t.root, 'sub/Manifest'))
+                gz = os.path.exists(os.path.join(t.root, 'sub/Manifest.gz'))
+                want_gz = size >= size + delta
+                rcv, outv = gemato('verify', t.root)
+                if rc or plain == gz or gz != want_gz or rcv:
+                    errs.append(f'watermark {size + delta} vs size {size}, start_gz={start_gz}: '
+                                f'plain={plain} gz={gz} verify rc={rcv}')
+                else:
+                    agree += 1
+            finally:
+                t.close()
+    details.append({'cases': 'size-1/size/size+1 from plain and from gz'})
+    return agree, details, errs
